@@ -9,8 +9,10 @@
 //!      byte boundary), for the install builder and the download builder v1/v2/v3. States
 //!      are merged on the serialized manifest: a builder's fields are its tags, entries and
 //!      header parameters (all serialized) plus the name→index map, which a probe observes on
-//!      every explored program before it is merged. Tag names are distinct (adding a name
-//!      that is present is a caller error and outside the alphabet).
+//!      every explored program before it is merged. A tag is its name: `add_tag` of a name
+//!      that is present is part of the alphabet while that tag selects no file (the builders
+//!      return `Self`, they cannot refuse it), and leaves the model as it is — every later
+//!      association by that name belongs to the one tag of that name.
 //! (ii) ENUM: every file count 0..=70 (plus 255/256/257/1023 at the thorough tier) × 7 tag
 //!      patterns × 0..=3 tags × 3 construction styles × formats (install v1, install v2
 //!      re-opened with `from_manifest`, download v1/v2/v3 with base priorities across the
@@ -217,6 +219,8 @@ enum Applic {
     Changes,
     /// the API reports `false` and leaves the builder alone (download `&mut` removers)
     NoOpFalse,
+    /// the call is made and the model stays as it is (`add_tag` of a name that is present)
+    NoOp,
     /// the API would return an error and consume the builder: outside the alphabet
     Inadmissible,
 }
@@ -238,7 +242,15 @@ impl Model {
         let has = |t: &usize| self.tag_pos(*t).is_some();
         let ok = |c: bool| if c { Applic::Changes } else { Applic::Inadmissible };
         match a {
-            Act::AddTag(t) => ok(!has(t)),
+            // Adding a name twice: the property speaks of "the files associated with a tag",
+            // and a tag is addressed by its name everywhere. While the tag selects no file,
+            // keeping the old tag and replacing it by a fresh one are the same thing, so only
+            // that case is in the alphabet (decision in the direction of not alarming).
+            Act::AddTag(t) => match self.tag_pos(*t) {
+                None => Applic::Changes,
+                Some(p) if self.tags[p].files.is_empty() => Applic::NoOp,
+                Some(_) => Applic::Inadmissible,
+            },
             Act::RemoveTag(t) => {
                 if has(t) {
                     Applic::Changes
@@ -1414,7 +1426,7 @@ impl SeqSubject for Subject {
             let act = self.to_act(op, &m);
             match m.applicability(&act, self.fmt) {
                 Applic::Inadmissible => return false,
-                Applic::NoOpFalse => {}
+                Applic::NoOpFalse | Applic::NoOp => {}
                 Applic::Changes => m.apply(&act, self.fmt),
             }
             if m.n() > self.max_files() {
@@ -2076,7 +2088,7 @@ fn seq_subjects(seed: u64) -> Vec<(Subject, usize, usize)> {
 pub fn run(tier: Tier, seed: u64) -> i32 {
     let rep = Report::new("C19", tier, seed, Level::ModelChecking);
     rep.set_rule(
-        "(i) every admissible builder program (distinct tag names, valid indices, ≤ max files) up to the depth bound over {add_tag, remove_tag, add_file, add_file_with_tags/properties, associate (by name, by index, last), dissociate, remove_file (by index, by key), from_manifest re-open, update size/priority} × 2 tags × 3 file-index slots, from 0 files and from 7 files, on the real install builder and download builders v1/v2/v3; states = distinct serialized manifests (merged only after the name→index probe passed), transitions = builder calls executed, traces = programs executed; every program ≥ 1 call is distinct and non-trivial",
+        "(i) every admissible builder program (valid indices, ≤ max files; a tag name may be added again while its tag selects no file) up to the depth bound over {add_tag, remove_tag, add_file, add_file_with_tags/properties, associate (by name, by index, last), dissociate, remove_file (by index, by key), from_manifest re-open, update size/priority} × 2 tags × 3 file-index slots, from 0 files and from 7 files, on the real install builder and download builders v1/v2/v3; states = distinct serialized manifests (merged only after the name→index probe passed), transitions = builder calls executed, traces = programs executed; every program ≥ 1 call is distinct and non-trivial",
     );
     rep.set_rule(
         "(ii) every file count × 7 tag patterns (tag j uses pattern p+j) × 0..=3 tags × 3 construction styles × formats (incl. builders re-opened from an install v2 manifest and from manifests whose mask padding bits are set, as real CDN manifests have), each followed by a plain add_file (+ associate), remove_file(i) for i ∈ {0,7,8,last} + re-add, and drains to empty; a grid case is non-trivial when n > 0 and at least one tag bit is set",
